@@ -25,6 +25,10 @@ fn query_points() -> Vec<(f64, f64)> {
     v.push((0.5, 0.5));
     v.push((-3.0, 0.004));
     v.push((0.0101, 0.0099));
+    // beyond the range of longitudes / latitudes: no point of the network is within any tolerance of these
+    v.push((181.0, 0.004));
+    v.push((0.004, 91.0));
+    v.push((-200.0, -95.0));
     v
 }
 
@@ -477,7 +481,7 @@ pub fn run(tier: Tier) -> i32 {
     finish(
         &info,
         st,
-        "state = one vertex set (subsets of a 3x3 lattice: sizes 1-4 and 7-9 quick, all 511 thorough) or edge set (every single edge and every pair of a 14-edge pool, sets of 7-14 records, all 14 with one bent edge; four geometry shapes: straight, slight bend, hairpin, detour; class table and one restricted edge); transition = one real plugin invocation (plugin built by its builder from configuration values, one tolerance per set through the constructor) for one query point of a 7x7 lattice reaching beyond the network (+3 far/odd points), with and without destination, under one tolerance (none, or 100/700/1300/5000 m expressed in m/km/mi/ft) and one road-class/vehicle filter; oracle = exhaustive scan under the plugin's own measure (squared f32 coordinate distance; to the linestring centroid for edges), tolerance by the reference great-circle distance (double precision); non-trivial = more than one candidate",
+        "state = one vertex set (subsets of a 3x3 lattice: sizes 1-4 and 7-9 quick, all 511 thorough) or edge set (every single edge and every pair of a 14-edge pool, sets of 7-14 records, all 14 with one bent edge; four geometry shapes: straight, slight bend, hairpin, detour; class table and one restricted edge); transition = one real plugin invocation (plugin built by its builder from configuration values, one tolerance per set through the constructor) for one query point of a 7x7 lattice reaching beyond the network (+3 far/odd points, +3 beyond the range of longitudes and latitudes), with and without destination, under one tolerance (none, or 100/700/1300/5000 m expressed in m/km/mi/ft) and one road-class/vehicle filter; oracle = exhaustive scan under the plugin's own measure (squared f32 coordinate distance; to the linestring centroid for edges), tolerance by the reference great-circle distance (double precision); non-trivial = more than one candidate",
         true,
         json!({"vertex_sets": masks.len(), "edge_sets": n_sets, "query_points": query_points().len(), "tolerances": tolerances().len(), "filters": 8}),
         vec![
